@@ -22,7 +22,7 @@ def thread_prog(rng, u, nacq, allow_panic, data_ops, only=None, sh=0.35):
                 if n:
                     pos = rng.randrange(n)
                     ops.append(("gwrite", pos) if mode == "ex" and rng.random() < 0.6 else ("gread", pos))
-            if allow_panic and rng.random() < 0.15:
+            if allow_panic and rng.random() < (0.5 if data_ops == 10 else 0.15):
                 ops.append(("panic",))
             else:
                 ops.append((rng.choice(["gdrop", "gunlock"]),))
@@ -38,7 +38,13 @@ def gen(pid, tier, rng, n=None):
     n = n or COUNT[tier]
     for i in range(n):
         b = shapes.B(f"{pid.lower()}_{i}")
-        u = histgen.Universe(rng, b, nleaves=(2, 5), ncolls=(1, 4), poison=0.25, depth=rng.choice([0, 1, 1, 2]))
+        u = histgen.Universe(rng, b, nleaves=(2, 5), ncolls=(1, 4), poison=0.9 if pid == "C10" else 0.25,
+                             depth=rng.choice([0, 1, 1, 2]))
+        if pid == "C10":
+            # contended wrappers: a few acquirable roots only, most of them poisonable or containing one
+            pr = [c for c in u.roots if "P(" in b.desc[c]]
+            if pr:
+                u.roots = pr + [c for c in u.roots if c not in pr][:1]
         nt = rng.randint(2, 4)
         only = None
         others = None
@@ -78,7 +84,7 @@ def gen(pid, tier, rng, n=None):
                     u.roots.append(others[-1])
         progs = []
         for t in range(nt):
-            progs.append((t, thread_prog(rng, u, rng.randint(1, 3), pid in ("C01", "C03", "C05") and rng.random() < 0.3,
+            progs.append((t, thread_prog(rng, u, rng.randint(1, 3), (pid in ("C01", "C03", "C05") and rng.random() < 0.3) or (pid == "C10" and rng.random() < 0.8),
                                          2 if pid == "C02" else 1, only if t == 0 else (others if others and rng.random() < 0.8 else None),
                                          sh0 if t == 0 else 0.35)))
         total = sum(len(p) for _, p in progs)
@@ -130,6 +136,8 @@ def nontrivial(pid, s, r):
         return "BWait 0" in bo or "RBool false" in bo
     if pid == "C02":
         return "EData" in bo and "BWait" in bo
+    if pid == "C10":
+        return "RPanicked" in bo and "BWait" in bo
     return "BWait" in bo
 
 
